@@ -18,7 +18,11 @@ package ctreeprop
 //
 // Queries and walks that ran concurrently with other operations are not part of
 // the check (the property promises the interval rule for them, not a snapshot);
-// snapshots (Atomic) and the final walk are.
+// snapshots (Atomic) and the final walk are. GetLeafValue is Get followed by
+// Value (the node is looked up, the locks are dropped, then its value is read):
+// as in the model judge it is first tried as one step and, if no order is found,
+// as two steps inside its interval (a delete plus an update through a retained
+// handle may legally fall between them).
 //
 // The search is a depth-first enumeration with pruning at the first result that
 // differs; the tree is rebuilt from the prefix after every dead end. budget
@@ -38,17 +42,30 @@ type diffVerdict struct {
 	inconclusive string
 	msg          string
 	execs        int
-	orders       int // dead ends + 1: how much of the order space had to be looked at
+	orders       int  // dead ends + 1: how much of the order space had to be looked at
+	twoStep      bool // GetLeafValue had to be split into lookup and read
 }
 
 type diffEnv struct {
-	tr  *ctree.Tree
-	hnd map[int]*ctree.Leaf
+	tr    *ctree.Tree
+	hnd   map[int]*ctree.Leaf
+	nodes map[int]*ctree.Tree // two-step GetLeafValue: the node its lookup found, by operation index
+}
+
+func newDiffEnv() *diffEnv {
+	return &diffEnv{tr: &ctree.Tree{}, hnd: map[int]*ctree.Leaf{}, nodes: map[int]*ctree.Tree{}}
+}
+
+// dstep is one atomic step of the sequential execution: a whole operation, or
+// one half of a GetLeafValue (phase 1 = lookup, phase 2 = read).
+type dstep struct {
+	src   int // index into h.Ops
+	phase int
 }
 
 type diffJ struct {
 	h      *History
-	idx    []int    // indices into h.Ops of the operations that take part
+	idx    []dstep
 	want   []string // their recorded results, canonical
 	execs  int
 	budget int
@@ -96,11 +113,24 @@ func diffTakesPart(o *HOp) bool {
 	return true
 }
 
-// apply executes the operation at position k (of d.idx) sequentially on e and
-// reports its canonical result; ok=false if it cannot be executed at all.
+// apply executes step k (of d.idx) sequentially on e and reports its
+// canonical result; ok=false if it cannot be executed at all.
 func (d *diffJ) apply(e *diffEnv, k int) (res string, ok bool) {
 	d.execs++
-	src := &d.h.Ops[d.idx[k]]
+	st := d.idx[k]
+	src := &d.h.Ops[st.src]
+	defer func() {
+		if r := recover(); r != nil {
+			res, ok = fmt.Sprintf("panic: %v", r), false
+		}
+	}()
+	switch st.phase {
+	case 1:
+		e.nodes[st.src] = e.tr.Get(src.Path)
+		return "", true
+	case 2:
+		return vstr(toInt(e.nodes[st.src].Value())), true
+	}
 	x := HOp{G: src.G, Kind: src.Kind, Path: src.Path, Val: src.Val, Nil: src.Nil, H: src.H}
 	var l *ctree.Leaf
 	if x.Kind == "hval" || x.Kind == "hupd" {
@@ -108,11 +138,6 @@ func (d *diffJ) apply(e *diffEnv, k int) (res string, ok bool) {
 			return "no leaf handle " + fmt.Sprint(x.H) + " in this order", false
 		}
 	}
-	defer func() {
-		if r := recover(); r != nil {
-			res, ok = fmt.Sprintf("panic: %v", r), false
-		}
-	}()
 	var clk int64
 	got := perform(e.tr, &x, l, func() int64 { clk++; return clk })
 	if x.Kind == "getleaf" && got != nil {
@@ -122,24 +147,28 @@ func (d *diffJ) apply(e *diffEnv, k int) (res string, ok bool) {
 }
 
 func (d *diffJ) replay(path []int) *diffEnv {
-	e := &diffEnv{tr: &ctree.Tree{}, hnd: map[int]*ctree.Leaf{}}
+	e := newDiffEnv()
 	for _, k := range path {
 		d.apply(e, k)
 	}
 	return e
 }
 
-// enabled: the not yet executed operations no other unexecuted operation precedes in real time.
+// enabled: the steps not yet executed that no other unexecuted step precedes in
+// real time (the read of a two-step GetLeafValue also waits for its lookup).
 func (d *diffJ) enabled(done []bool) []int {
 	var out []int
-	for k := range d.idx {
+	for k, st := range d.idx {
 		if done[k] {
 			continue
 		}
-		call := d.h.Ops[d.idx[k]].Call
+		if st.phase == 2 && !done[k-1] {
+			continue
+		}
+		call := d.h.Ops[st.src].Call
 		free := true
-		for j := range d.idx {
-			if j != k && !done[j] && d.h.Ops[d.idx[j]].Ret < call {
+		for j, o := range d.idx {
+			if j != k && !done[j] && d.h.Ops[o.src].Ret < call {
 				free = false
 				break
 			}
@@ -149,6 +178,18 @@ func (d *diffJ) enabled(done []bool) []int {
 		}
 	}
 	return out
+}
+
+func (d *diffJ) stepString(k int) string {
+	st := d.idx[k]
+	s := d.h.Ops[st.src].String()
+	switch st.phase {
+	case 1:
+		return s + " [lookup]"
+	case 2:
+		return s + " [read]"
+	}
+	return s
 }
 
 // dfs: e holds the tree after path on entry and is consumed.
@@ -170,7 +211,7 @@ func (d *diffJ) dfs(done []bool, path []int, e *diffEnv) (found bool) {
 		res, ok := d.apply(e, k)
 		if !ok || res != d.want[k] {
 			if len(stop) < 6 {
-				stop = append(stop, fmt.Sprintf("%s (sequentially here: %s)", d.h.Ops[d.idx[k]].String(), res))
+				stop = append(stop, fmt.Sprintf("%s (sequentially here: %s)", d.stepString(k), res))
 			}
 			continue
 		}
@@ -192,21 +233,41 @@ func diffJudge(h *History, budget int) (v diffVerdict) {
 	if h.Panic != "" {
 		return diffVerdict{msg: "an operation panicked: " + h.Panic}
 	}
-	d := &diffJ{h: h, budget: budget}
 	for i := range h.Ops {
-		o := &h.Ops[i]
-		if o.Ret < o.Call {
+		if h.Ops[i].Ret < h.Ops[i].Call {
 			return diffVerdict{inconclusive: fmt.Sprintf("malformed history: op %d returns before it is called", i)}
 		}
-		if diffTakesPart(o) {
-			d.idx = append(d.idx, i)
+	}
+	v = diffSearch(h, budget, false)
+	if !v.ok && v.inconclusive == "" && hasKind(h, "glv") {
+		w := diffSearch(h, budget-v.execs, true)
+		w.execs += v.execs
+		w.orders += v.orders
+		w.twoStep = true
+		return w
+	}
+	return v
+}
+
+func diffSearch(h *History, budget int, twoStep bool) (v diffVerdict) {
+	d := &diffJ{h: h, budget: budget}
+	var srcs []int
+	for i := range h.Ops {
+		if diffTakesPart(&h.Ops[i]) {
+			srcs = append(srcs, i)
 		}
 	}
-	sort.SliceStable(d.idx, func(a, b int) bool { return h.Ops[d.idx[a]].Call < h.Ops[d.idx[b]].Call })
-	for _, i := range d.idx {
+	sort.SliceStable(srcs, func(a, b int) bool { return h.Ops[srcs[a]].Call < h.Ops[srcs[b]].Call })
+	for _, i := range srcs {
+		if twoStep && h.Ops[i].Kind == "glv" {
+			d.idx = append(d.idx, dstep{i, 1}, dstep{i, 2})
+			d.want = append(d.want, "", resultKey(&h.Ops[i]))
+			continue
+		}
+		d.idx = append(d.idx, dstep{i, 0})
 		d.want = append(d.want, resultKey(&h.Ops[i]))
 	}
-	found := d.dfs(make([]bool, len(d.idx)), nil, &diffEnv{tr: &ctree.Tree{}, hnd: map[int]*ctree.Leaf{}})
+	found := d.dfs(make([]bool, len(d.idx)), nil, newDiffEnv())
 	v.execs, v.orders = d.execs, d.orders+1
 	switch {
 	case found:
@@ -216,13 +277,13 @@ func diffJudge(h *History, budget int) (v diffVerdict) {
 	default:
 		var pre []string
 		for _, k := range d.best {
-			pre = append(pre, d.h.Ops[d.idx[k]].String())
+			pre = append(pre, d.stepString(k))
 		}
 		if len(pre) > 12 {
 			pre = append([]string{fmt.Sprintf("... %d more ...", len(pre)-12)}, pre[len(pre)-12:]...)
 		}
-		v.msg = fmt.Sprintf("no sequential order of the %d recorded operations that respects real-time order reproduces their results and the final content on a tree used from one goroutine; the longest reproducible prefix has %d operations [%s]; none of the operations that could come next fits: %s",
-			len(d.idx), len(d.best), strings.Join(pre, " ; "), strings.Join(d.bestStop, " | "))
+		v.msg = fmt.Sprintf("no sequential order of the %d recorded operations that respects real-time order reproduces their results and the final content on a tree used from one goroutine; the longest reproducible prefix has %d steps [%s]; none of the steps that could come next fits: %s",
+			len(srcs), len(d.best), strings.Join(pre, " ; "), strings.Join(d.bestStop, " | "))
 	}
 	return v
 }
